@@ -97,7 +97,7 @@ func streamPreds(seed uint64, n int, driver string, tier string) (*Summary, erro
 	if n > 20000 {
 		maxLen = 3
 	}
-	sum.Rule = fmt.Sprintf("every built-in test: strings exhaustive up to length %d over an 18-symbol alphabet containing the ASCII range edges (/ 0 9 : @ A Z [ ` a z {) and 2/3/4-byte runes (for UUID and Email also a valid subject with every position replaced by every ASCII byte and by runes that case / width folding relates to ASCII: ſ K ı İ µ ß Å ａ Ａ ０ ...), x parameters (lengths 0..4, prefixes/substrings from the alphabet, OneOf sets); numbers at parameter-1/parameter/parameter+1 incl. NaN, +-0, +-Inf; times equal in different zones; slices of length 0..4; plus %d random; non-trivial = every case (each decides one predicate on one subject); distinct = distinct case line", maxLen, n)
+	sum.Rule = fmt.Sprintf("every built-in test: strings exhaustive up to length %d over an 18-symbol alphabet containing the ASCII range edges (/ 0 9 : @ A Z [ ` a z {) and 2/3/4-byte runes (for UUID and Email also a valid subject with every position replaced by every ASCII byte and by runes that case / width folding relates to ASCII: ſ K ı İ µ ß Å ａ Ａ ０ ...), x parameters (lengths 0..4, prefixes/substrings from the alphabet, OneOf sets); numbers at parameter-1/parameter/parameter+1 incl. NaN, +-0, +-Inf; times equal in different zones, and a 12 x 12 grid of bounds x values on both sides of the int64-nanosecond range (years 1 .. 9999); slices of length 0..4; plus %d random; non-trivial = every case (each decides one predicate on one subject); distinct = distinct case line", maxLen, n)
 	r := rng.New(seed)
 	type pc struct {
 		kind, elem string
@@ -242,6 +242,21 @@ func streamPreds(seed uint64, n int, driver string, tier string) (*Summary, erro
 			t.Op = op
 			t.Arg = eng.D{K: "t", T: p}
 			for _, v := range []time.Time{base, base.In(zone), base.Add(time.Nanosecond), base.Add(-time.Nanosecond), base.Add(time.Hour).In(zone), time.Unix(0, 0).UTC()} {
+				cases = append(cases, pc{"time", "", t, eng.D{K: "t", T: v}})
+			}
+		}
+	}
+	// …and instants on both sides of the range an int64 of nanoseconds can hold (1677-09-21 .. 2262-04-11): the
+	// full grid of bounds x values, against time.Time's own comparison
+	far := []time.Time{time.Date(9999, 12, 31, 23, 59, 59, 0, time.UTC), time.Date(3000, 1, 1, 0, 0, 0, 0, time.UTC), time.Date(2262, 4, 11, 23, 47, 16, 854775807, time.UTC),
+		time.Date(2262, 4, 11, 23, 47, 16, 854775808, time.UTC), time.Date(2262, 4, 12, 0, 0, 0, 0, zone), base, time.Unix(0, 0).UTC(), time.Date(1677, 9, 21, 0, 12, 43, 145224192, time.UTC),
+		time.Date(1677, 9, 21, 0, 12, 43, 145224191, time.UTC), time.Date(1000, 6, 1, 12, 0, 0, 0, zone), time.Date(1, 1, 1, 0, 0, 0, 1, time.UTC), {}}
+	for _, op := range []string{"gt", "lt", "eq"} {
+		for _, p := range far {
+			t := mk("tcmp")
+			t.Op = op
+			t.Arg = eng.D{K: "t", T: p}
+			for _, v := range far {
 				cases = append(cases, pc{"time", "", t, eng.D{K: "t", T: v}})
 			}
 		}
